@@ -14,7 +14,7 @@ SPEC = {
     ],
     "classes": {1: "hidden-type-still-referenced", 2: "directive-visibility-ignored",
                 3: "interface-implements-interface", 4: "interface-pass-order"},
-    "n_quick": 220, "n_thorough": 5000,
+    "n_quick": 220, "n_thorough": 880,
     "level": "proof",
     "what_violation": "introspection answer is inconsistent / shows a hidden element / differs from the served registry",
     "rule": ("full introspection query (three includeDeprecated settings) + aliased __type(name:) queries on a fixed corpus, generated "
